@@ -524,6 +524,7 @@ def run(ctx):
     cast_width(ctx)
     trait_productions(ctx)
     short_circuit_second_operand(ctx)
+    printed_operations_keep_their_grouping(ctx)
 
     # ------------------------------------------------------------ R07.6
     n_c = 0
@@ -1122,3 +1123,108 @@ def short_circuit_second_operand(ctx):
             ctx.ob("R07.14", "evaluate|%s|%s" % (op_name(hit[0], tv_rev), _norm_cond(show(u)) if False else show(u)), ok, ev.loc(u),
                    "`%s` in the %s arm is %sbehind a test that r2 was evaluated" % (show(u), op_name(hit[0], tv_rev), "" if ok else "NOT "))
     ctx.floor("R07.14", "uses of r2's value in the arms of short-circuit operators", n, 2)
+
+
+UNGROUPED_OPERATORS = {
+    ".": "member access: postfix, binds tighter than every operator that can appear in an operand position to its left",
+    "POINTSAT": "as '.'",
+    ",": "the comma expression is only printed inside an argument list or its own parentheses (documented in the source: 'no parens are used')",
+}
+
+
+def _emissions(st):
+    """Ordered pieces a statement sends to the stream: ('lit', text), ('val',), ('operand',) or ('other', kind)."""
+    st0 = st
+    st = strip_casts(peel(st)) if st is not None else None
+    if st is None:
+        return []
+    if st.get("k") == "block":
+        out = []
+        for x in st.get("s", []):
+            out += _emissions(x)
+        return out
+    if st.get("k") in ("break", "null"):
+        return []
+    if st.get("k") == "call" and callee_short(st) == "operator<<" and len(st.get("a", [])) == 2:
+        left = _emissions(st["a"][0])
+        r = strip_casts(peel(st["a"][1]))
+        if r is not None and r.get("k") == "str":
+            return left + [("lit", r.get("v") or "")]
+        if r is not None and r.get("k") in ("chr", "int") and isinstance(r.get("v"), int) and 0 < r["v"] < 128:
+            return left + [("lit", chr(r["v"]))]
+        return left + [("val",)]
+    if st.get("k") == "call" and callee_short(st) == "output" and "this" in st:
+        return [("operand",)]
+    if st.get("k") in ("ref", "mem", "this"):
+        return []           # the stream itself at the left end of a << chain
+    return [("other", st0.get("k"))]
+
+
+def printed_operations_keep_their_grouping(ctx):
+    """R07.15: the builder keys array types (and template instantiations) by their PRINTED name, which embeds the printed
+    bound / argument expression; two different expressions that print alike share one database type, and the second
+    declaration silently takes the first one's bound.  CPPExpression::output() therefore prints every operation with
+    two or more operands inside its own parentheses, on every path, so that grouping survives: `8 / (4 / 2)` and
+    `8 / 4 / 2` must differ.  (Seed S8-C07: '*', '/', '%' printed without parentheses.)"""
+    db = ctx.db
+    ctx.rule("R07.15", "in CPPExpression::output every arm of the binary-operator switch (and the ?: arm) that prints two or more operands starts with an unconditional '(' and ends with an unconditional ')' and has no conditional output; exempt: '.', '->', ','")
+    fs = [g for g in db.functions if g.name == "CPPExpression::output"]
+    if not fs:
+        ctx.broken("R07.15: CPPExpression::output not found")
+        return
+    f = fs[0]
+    tokens = {}
+    en = db.enum("yytokentype") if hasattr(db, "enum") else None
+    try:
+        for c in (en or {}).get("consts", []):
+            tokens[c["v"]] = c["n"]
+    except Exception:
+        pass
+    n = 0
+    for sw in f.walk():
+        if sw.get("k") != "switch" or not (field_of(strip_casts(peel(sw["c"]))) or "").endswith("::_operator"):
+            continue
+        for labels, stmts in switch_arms(sw):
+            seq = []
+            for st in stmts:
+                seq += _emissions(st)
+            if sum(1 for e in seq if e[0] == "operand") < 2:
+                continue
+            n += 1
+            names = []
+            for l in labels:
+                if l == "default":
+                    names.append("default")
+                elif isinstance(l, int) and 32 <= l < 127:
+                    names.append(chr(l))
+                else:
+                    names.append(tokens.get(l, str(l)))
+            if all(nm in UNGROUPED_OPERATORS for nm in names):
+                ctx.ob("R07.15", "output|binary %s|exempt" % "/".join(names), True, f.loc(stmts[0]), UNGROUPED_OPERATORS[names[0]])
+                continue
+            other = [e for e in seq if e[0] == "other"]
+            ok = not other and seq[0][0] == "lit" and seq[0][1].lstrip().startswith("(") and seq[-1][0] == "lit" and seq[-1][1].rstrip().endswith(")")
+            ctx.ob("R07.15", "output|binary %s|parenthesised" % "/".join(names), ok, f.loc(stmts[0]),
+                   "printed as ( a op b ) unconditionally" if ok else
+                   ("the arm contains output that is not a straight `out << ...` (a %s statement): the parentheses are not on every path" % other[0][1] if other else
+                    "the arm does not begin with '(' and end with ')'"))
+    ctx.floor("R07.15", "binary-operator arms of CPPExpression::output", n, 8)
+    # arms of the switch on _type that print several operands themselves (?:)
+    m = 0
+    for sw in f.walk():
+        if sw.get("k") != "switch" or not (field_of(strip_casts(peel(sw["c"]))) or "").endswith("CPPExpression::_type"):
+            continue
+        for labels, stmts in switch_arms(sw):
+            if any(y.get("k") == "switch" for st in stmts for y in walk(st)):
+                continue
+            seq = []
+            for st in stmts:
+                seq += _emissions(st)
+            if sum(1 for e in seq if e[0] == "operand") < 3:
+                continue
+            m += 1
+            other = [e for e in seq if e[0] == "other"]
+            ok = not other and seq[0][0] == "lit" and seq[0][1].lstrip().startswith("(") and seq[-1][0] == "lit" and seq[-1][1].rstrip().endswith(")")
+            ctx.ob("R07.15", "output|type-arm %s|parenthesised" % "/".join(str(l) for l in labels), ok, f.loc(stmts[0]),
+                   "printed as ( a ? b : c ) unconditionally" if ok else "the three-operand arm is not unconditionally parenthesised")
+    ctx.floor("R07.15", "three-operand arms of CPPExpression::output", m, 1)
